@@ -254,9 +254,24 @@ class AsyncIOClient(ABC):
         except Exception as ex:
             if self._state != State.CLOSED:
                 self.logger.error(f"Connection lost while reading. Error: {ex}. Reconnecting...", exc_info=True)
+                self._shut_link()
                 await self._update_state(State.DISCONNECTED)
                 self._schedule_reconnect()
         self.logger.info("Received loop terminated")
+
+    def _shut_link(self):
+        """Shut the current link: on close(), and when it is given up after a fault.
+
+        A link that is replaced without being shut stays open for good, and a sender suspended in drain()
+        on it (the peer stopped reading) would keep the send lock forever: no later message would go out
+        on the new link.
+        """
+        if self.writer:
+            self.writer.close()
+            transport = getattr(self.writer, "transport", None)
+            if transport is not None and transport.get_write_buffer_size() > 0:
+                # the peer does not read: do not wait for the write buffer to drain before the link is shut
+                transport.abort()
 
     def _schedule_reconnect(self):
         """Start the reconnect task unless one is already waiting or connecting.
@@ -306,6 +321,7 @@ class AsyncIOClient(ABC):
             # a failure on a link that has been replaced in the meantime says nothing about the current one
             if self._state != State.CLOSED and (writer is None or writer is self.writer):
                 self.logger.error(f"Connection lost while sending. Error {ex}. Reconnecting...", exc_info=True)
+                self._shut_link()
                 await self._update_state(State.DISCONNECTED)
                 self._schedule_reconnect()
 
@@ -316,12 +332,7 @@ class AsyncIOClient(ABC):
         After calling this method, the client cannot be reconnected.
         """
         await self._update_state(State.CLOSED)
-        if self.writer:
-            self.writer.close()
-            transport = getattr(self.writer, "transport", None)
-            if transport is not None and transport.get_write_buffer_size() > 0:
-                # the peer does not read: do not wait for the write buffer to drain before the link is shut
-                transport.abort()
+        self._shut_link()
         # close() may be called from a callback, i.e. from inside one of the background tasks: that task
         # ends by itself once the state is CLOSED and must not be cancelled from within
         current_task = asyncio.current_task()
